@@ -152,6 +152,7 @@ class SuccessionDiagram:
     def __getstate__(self) -> SuccessionDiagramState:
         return {
             "network_rules": self.network.to_aeon(),
+            "network": self.network,
             "petri_net": self.petri_net,
             "nfvs": self.nfvs,
             "dag": self.dag,
@@ -160,8 +161,15 @@ class SuccessionDiagram:
         }
 
     def __setstate__(self, state: SuccessionDiagramState):
+        # The network object itself is persisted, because the `.aeon` text cannot express
+        # the variable order (it sorts by name) nor input variables that regulate nothing;
+        # cached symbolic data and node IDs depend on both. The text is only a fallback
+        # for states saved without the object.
+        network = state.get("network")
+        if network is None:
+            network = BooleanNetwork.from_aeon(state["network_rules"])
         # In theory, the network should be cleaned-up at this point, but just in case...
-        self.network = cleanup_network(BooleanNetwork.from_aeon(state["network_rules"]))
+        self.network = cleanup_network(network)
         self.symbolic = AsynchronousGraph(self.network)
         self.petri_net = state["petri_net"]
         self.nfvs = state["nfvs"]
